@@ -55,7 +55,7 @@ def strategy(kind):
             run = {'method': spec['method'], 'threads': draw(st.integers(1, 8)), 'pool': draw(st.sampled_from(['det', 'det', 'real'])),
                    'order': draw(st.lists(st.integers(0, 1000), min_size=4, max_size=4))}
         run['hamming'] = draw(st.sampled_from([0, 1, 1]))
-        run['eject_every'] = draw(st.sampled_from([None, None, 1, 3, 7]))     # buffer check interval of the molecule iterator, scaled down
+        run['eject_every'] = draw(st.sampled_from([None, None, 0, 1, 3, 7]))     # buffer check interval of the molecule iterator, scaled down
         return {'spec': spec, 'run': run}
     return case()
 
